@@ -1781,7 +1781,10 @@ class ReceivePackHandler(PackHandler):
                 raise GitProtocolError(
                     f"Invalid ref update line from client: {ref_line!r}"
                 )
-            client_refs.append((ObjectID(oldsha), ObjectID(newsha), Ref(ref_name)))
+            # ids are compared with and stored as lower-case hex
+            client_refs.append(
+                (ObjectID(oldsha.lower()), ObjectID(newsha.lower()), Ref(ref_name))
+            )
             ref_line = self.proto.read_pkt_line()
 
         # Run pre-receive hook before processing the pack
